@@ -237,7 +237,7 @@ func runSpecial(c *Case, m *monitorCtx, emit func(*Case, string)) {
 		if !exists && ok {
 			m.fail("state-account-refused", fmt.Sprintf("StateDB at %v refused the in-zone Quai address %x", c.Loc, c.B), c)
 		}
-		if !ok && st.Error() == nil {
+		if !ok && !exists && st.Error() == nil {
 			m.fail("state-guard-silent", fmt.Sprintf("createObject refused %x at %v without recording an error", c.B, c.Loc), c)
 		}
 		// the refused account must not reach the trie either
